@@ -55,9 +55,13 @@ def _key():
 EVENT_NAMES = ["x11-granted", "x11-denied", "agent", "forward-granted", "forward-denied",
                "forward-inactive-granted", "forward-inactive-denied", "cancel", "cancel-inactive",
                "other-global-granted", "other-global-denied",
-               "forward-granted-rekey-while-pending", "forward-denied-rekey-while-pending"]
-NEV = 11          # codes 0..10 form the exhaustive alphabet; 11/12 (a re-key completes while the request is
-                  # pending; costs a 0.25 s hold each) are added to chosen prefixes and to random histories
+               "forward-granted-rekey-while-pending", "forward-denied-rekey-while-pending",
+               "pty-granted", "pty-denied", "cancel-refused-by-server"]
+# exhaustive alphabet; 11/12 (a re-key completes while the request is pending; 0.25 s hold each) are added to
+# chosen prefixes and to random histories.  13/14: another channel request (get_pty) granted / refused - with
+# channel re-use every enabling request is thus issued after an earlier success and after an earlier refusal on
+# the same channel; 15: the server answers cancel-tcpip-forward with REQUEST_FAILURE.
+ALPHABET = list(range(11)) + [13, 14, 15]
 SCHEDULES = ["sync", "switch-after-set"]
 _quiet = [False]
 
@@ -143,8 +147,10 @@ class Rig:
     schedule "switch-after-set": the reply is processed by a second thread (the transport thread's role) and
     that thread is descheduled right after Event.set(), so the waiter runs before the setter's next statement."""
 
-    def __init__(self, server_mode=False, server_object=None, schedule="sync"):
+    def __init__(self, server_mode=False, server_object=None, schedule="sync", reuse_channel=False):
         self.schedule = schedule
+        self.reuse_channel = reuse_channel   # channel requests go to the same session channel while it is open
+        self.session = None
         self.pending = []         # (Ctl, controlled events, thread) of replies in flight
         self.rekey_first = False  # a re-key completes (NEWKEYS is processed) before the pending reply arrives
         from paramiko.transport import Transport
@@ -279,6 +285,13 @@ class Rig:
         f._c18_spy = True
         return f
 
+    def channel(self):
+        c = self.session
+        if self.reuse_channel and c is not None and not (c.closed or c.eof_received or c.eof_sent):
+            return c
+        self.session = self.new_channel()
+        return self.session
+
     def apply(self, code, custom):
         """Run one enable / cancel operation through the public API; exceptions are part of the API."""
         import paramiko
@@ -286,9 +299,15 @@ class Rig:
         try:
             if code in (0, 1):
                 self.grant = code == 0
-                self.new_channel().request_x11(handler=self.cb(1) if custom else None)
+                self.channel().request_x11(handler=self.cb(1) if custom else None)
             elif code == 2:
-                self.new_channel().request_forward_agent(self.cb(0) if custom else None)
+                self.channel().request_forward_agent(self.cb(0) if custom else None)
+            elif code in (13, 14):
+                self.grant = code == 13
+                self.channel().get_pty()
+            elif code == 15:
+                self.grant = False
+                t.cancel_port_forward("127.0.0.1", 8022)
             elif code in (3, 4, 5, 6):
                 self.grant = code in (3, 5)
                 t.active = code in (3, 4)
@@ -405,16 +424,16 @@ def enabled_after(hist):
             agent = True
         elif c in (3, 11):
             tcp = True
-        elif c == 7:
-            tcp = False
+        elif c in (7, 15):
+            tcp = False           # cancelling is the client's decision, whatever the server answers
     return {AGENT: agent, "x11": x11, "forwarded-tcpip": tcp}
 
 
-def drive_open(ctx, hist, custom, kinds, cases, server=None, schedule="sync"):
+def drive_open(ctx, hist, custom, kinds, cases, server=None, schedule="sync", reuse=False):
     """Replay `hist` on a fresh transport, then offer each kind; returns nothing, appends cases."""
     rng = ctx.rng
     server_mode = server is not None
-    rig = Rig(server_mode=server_mode, server_object=server, schedule=schedule)
+    rig = Rig(server_mode=server_mode, server_object=server, schedule=schedule, reuse_channel=reuse)
     try:
         for c in hist:
             rig.apply(c, custom)
@@ -429,7 +448,7 @@ def drive_open(ctx, hist, custom, kinds, cases, server=None, schedule="sync"):
             n0 = len(t._channels)
             chanid = rng.randrange(1 << 31)
             case = {"history": [EVENT_NAMES[c] for c in hist], "custom_handlers": custom, "kind": kind,
-                    "server_mode": server_mode, "schedule": schedule}
+                    "server_mode": server_mode, "schedule": schedule, "same_channel": reuse}
             try:
                 t._parse_channel_open(open_payload(kind, chanid, rng))
             except Exception as e:
@@ -444,7 +463,7 @@ def drive_open(ctx, hist, custom, kinds, cases, server=None, schedule="sync"):
             queued = len(t.server_accepts) - q0
             added = len(t._channels) - n0
             replies = [(p, b) for p, b in rig.sent if p in (91, 92)]
-            ctx.count(("open", tuple(hist), custom, kind, server_mode, schedule), nontrivial=bool(hist) or kind in KINDS_ENABLED,
+            ctx.count(("open", tuple(hist), custom, kind, server_mode, schedule, reuse), nontrivial=bool(hist) or kind in KINDS_ENABLED,
                       kind="open-%s" % ("server" if server_mode else ("enabled-kind" if kind in KINDS_ENABLED else "other-kind")))
             if len(replies) != 1 or int.from_bytes(replies[0][1][:4], "big") != chanid:
                 ctx.fail("channel-open-reply", "CHANNEL_OPEN was not answered exactly once for the sender's channel id",
@@ -697,9 +716,11 @@ def drive_globals(ctx, cases, n_random):
 
 def run(ctx):
     rng = ctx.rng
-    ctx.rule = ("histories over the 11 outcomes of the enable/cancel operations and of other global requests (x11 "
-                "granted/denied, agent, forward granted/denied x active/inactive, cancel active/inactive, other "
-                "wait=True global request granted/denied), each exhaustive history under two deterministic schedules "
+    ctx.rule = ("histories over 14 outcomes of the enable/cancel operations and of other requests (x11 "
+                "granted/denied, agent, forward granted/denied x active/inactive, cancel active/inactive/refused by "
+                "the server, other wait=True global request granted/denied, another channel request (get_pty) "
+                "granted/refused; channel requests re-use the same channel while it is open, so every enabling "
+                "request also follows an earlier success and an earlier refusal on the same object), each exhaustive history under two deterministic schedules "
                 "(reply processed before the caller waits; reply processed by a second thread that is descheduled "
                 "right after Event.set() so that the waiter runs first), plus forwards whose reply arrives only "
                 "after a re-key has completed (real _parse_newkeys on the rig after 8 kinds of earlier replies; one "
@@ -718,16 +739,16 @@ def run(ctx):
     maxlen = 3 if ctx.thorough else 2
     hists = [()]
     for n in range(1, maxlen + 1):
-        hists += list(itertools.product(range(NEV), repeat=n))
+        hists += list(itertools.product(ALPHABET, repeat=n))
     nexh = len(hists)
     # a re-key completes while a wait=True global request is pending: after every kind of earlier reply
     for prefix in ((), (3,), (3, 7), (9,), (10,), (0,), (4,), (9, 7)):
         for code in (11, 12):
             hists.append(prefix + (code,))
             if ctx.thorough:
-                hists.append(prefix + (code, rng.randrange(NEV)))
+                hists.append(prefix + (code, rng.choice(ALPHABET)))
     for _ in range(600 if ctx.thorough else 120):
-        hists.append(tuple(rng.randrange(NEV) if rng.random() < 0.97 else rng.choice((11, 12))
+        hists.append(tuple(rng.choice(ALPHABET) if rng.random() < 0.97 else rng.choice((11, 12))
                            for _ in range(rng.randrange(3, 11))))
     # ---- 1. implementation-level oracles (never depend on the translator / model) ----------
     cases = []
@@ -735,9 +756,13 @@ def run(ctx):
         custom = rng.random() < 0.5
         kinds = list(KINDS_ENABLED) + ([rng.choice(other)] if len(h) > 1 else other) + \
             [rand_name(rng, list(KINDS_ENABLED) + other)]
-        # the exhaustive histories run under both schedules, the random ones under a random one
-        for schedule in (SCHEDULES if 0 < i < nexh else [rng.choice(SCHEDULES)]):
-            drive_open(ctx, h, custom, kinds, cases, schedule=schedule)
+        # the exhaustive histories run under both schedules with all channel requests on the same channel (so
+        # each follows an earlier success / refusal there); the random ones under a random schedule / re-use
+        # (length-3 histories, thorough tier only, alternate between the two schedules to stay within budget)
+        for schedule in (SCHEDULES if 0 < i < nexh and len(h) <= 2 else
+                         [SCHEDULES[i % 2]] if 0 < i < nexh else [rng.choice(SCHEDULES)]):
+            drive_open(ctx, h, custom, kinds, cases, schedule=schedule,
+                       reuse=True if 0 < i < nexh else rng.random() < 0.5)
     # contrast: a server-mode transport with a server object accepts / rejects by the object's answer
     # (the three forwardable kinds are left out here: a server-mode transport whose server object approves
     # them calls the unset handler - TypeError - which is a server-side matter outside this property)
@@ -788,6 +813,6 @@ def replay(ctx, rep):
         hist = tuple(EVENT_NAMES.index(x) for x in case["history"])
         for _ in range(2):
             drive_open(ctx, hist, bool(case.get("custom_handlers")), [case["kind"]], [],
-                       schedule=case.get("schedule", "sync"))
+                       schedule=case.get("schedule", "sync"), reuse=bool(case.get("same_channel")))
     else:
         run(ctx)
